@@ -21,6 +21,8 @@ REGISTRY = {
     'C15': e2props.c15,
     'C02': e2props.c02,
     'C11': e2props.c11,
+    'C03': e2props.c03,
+    'C10': e2props.c10,
     'C09': e2props.c09,
     'C08': e2props.c08,
     'C12': e2props.c12,
